@@ -13,6 +13,12 @@ package paths
 // reported weight must be the spec's distance; Step must move to an optimal
 // successor and must be refused exactly at the goal.
 //
+// With moves=A|B|C the scripts move by MoveTo as well (dscript.Mv / Post, see movePatterns):
+// MoveTo(n) must leave the robot at n, and Path() / Step() from there are judged by the same
+// look-up.  A: every epoch is MoveTo* Step*; B: a MoveTo follows a Step inside one epoch;
+// C: a MoveTo to an arbitrary node is followed by Path() at once (no UpdateWorld in between);
+// D: the planner is created with start = goal, the robot is moved away and the update follows.
+//
 // "path-dstar-machine": the lines are the transitions of the specification's
 // state graph (TLC explored every behaviour); the real planner's run must be a
 // path of that graph: after every Step the state (i, here, levels) reached by
@@ -24,6 +30,7 @@ import (
 	"math"
 	"sort"
 	"strconv"
+	"strings"
 	"sync"
 	"sync/atomic"
 	"time"
@@ -74,6 +81,13 @@ type dscript struct {
 	St int        `json:"steps"`
 	Ch [][3]int64 `json:"ch"`
 	T1 dtab       `json:"tab1"`
+	// moves before the update, one letter each (empty: St times "s"):
+	//   s Step   h / m / M MoveTo(Path()[0 / 1 / 2])   j MoveTo(Jt), the update follows at once
+	//   J MoveTo(Jt) and Path() at once
+	Mv string `json:"mv,omitempty"`
+	// moves after the update, one letter each (s / m); the last letter is repeated to the goal
+	Post string `json:"post,omitempty"`
+	Jt   int    `json:"jt,omitempty"`
 }
 
 func dstarID(m int64) int64 { return m*7 - 11 } // non-contiguous, includes negative ids
@@ -208,6 +222,58 @@ func (p *planner) update(ch [][3]int64) string {
 	return p.call("UpdateWorld", func() { p.d.UpdateWorld(es) })
 }
 
+// moveAlong calls MoveTo(n) for the node n that lies j edges ahead on the planner's own Path()
+// (the last one if the path is shorter) and judges Here(). The choice of n is test-input selection;
+// the caller judges Path() from n against the tables.
+func (p *planner) moveAlong(j int) string {
+	var ns []graph.Node
+	if m := p.call("Path()", func() { ns, _ = p.d.Path() }); m != "" {
+		return m
+	}
+	if len(ns) == 0 {
+		return "Path() is empty although the goal is reachable"
+	}
+	if j > len(ns)-1 {
+		j = len(ns) - 1
+	}
+	return p.moveTo(int((ns[j].ID() + 11) / 7))
+}
+
+// moveTo calls MoveTo with a node value of the caller (only its id is the planner's business) and
+// judges Here(): the robot must stand at n.
+func (p *planner) moveTo(n int) string {
+	from := p.here()
+	if m := p.call("MoveTo", func() { p.d.MoveTo(simple.Node(dstarID(int64(n)))) }); m != "" {
+		return m
+	}
+	if m := p.call("Here() after MoveTo", func() { p.d.Here().ID() }); m != "" {
+		return m
+	}
+	if p.here() != n {
+		return fmt.Sprintf("MoveTo(%d) at %d: Here() = %d afterwards", n, from, p.here())
+	}
+	return ""
+}
+
+// movePatterns lists the (moves before the update, moves after it, uses a jump target) patterns of
+// a domain. A: every epoch is MoveTo* Step*. B: some MoveTo follows a Step inside one epoch.
+// C: MoveTo to an arbitrary node, Path() at once.
+func movePatterns(dom string) (pats [][2]string) {
+	switch dom {
+	case "A":
+		return [][2]string{{"m", "s"}, {"mm", "m"}, {"mmm", "ms"}, {"ms", "m"}, {"mms", "s"}, {"M", "mms"}, {"Ms", "m"},
+			{"mM", "s"}, {"h", "m"}, {"hs", "ms"}, {"j", "s"}, {"mj", "m"}}
+	case "B":
+		return [][2]string{{"sm", "s"}, {"ssm", "sm"}, {"sms", "s"}, {"smm", "sm"}, {"sM", "s"}, {"ssM", "sm"},
+			{"sh", "s"}, {"ssh", "sm"}, {"msm", "s"}, {"sj", "s"}, {"", "sm"}, {"m", "sm"}}
+	case "C":
+		return [][2]string{{"J", "s"}, {"mJ", "s"}}
+	case "D": // the planner is created at its goal (start = goal) and the robot is then moved away
+		return [][2]string{{"j", "s"}}
+	}
+	return nil
+}
+
 // runScript executes one script; it returns "" or the first disagreement.
 func runScript(sc *dscript, heur string) (what, msg string) {
 	var p *planner
@@ -223,13 +289,39 @@ func runScript(sc *dscript, heur string) (what, msg string) {
 	if m := p.checkPath(&sc.T0, sc.T); m != "" {
 		return "initial-path", m
 	}
-	for k := 0; k < sc.St; k++ {
-		moved, m := p.step(&sc.T0, sc.T)
-		if m != "" {
-			return "step", m
-		}
-		if !moved {
+	pre := sc.Mv
+	if pre == "" {
+		pre = "sss"[:sc.St]
+	}
+	for _, c := range pre {
+		if p.here() == sc.T && c != 'j' && c != 'J' {
 			return "", "" // reached the goal before the update: nothing more to say
+		}
+		switch c {
+		case 's':
+			moved, m := p.step(&sc.T0, sc.T)
+			if m != "" {
+				return "step", m
+			}
+			if !moved {
+				return "", ""
+			}
+		case 'h', 'm', 'M':
+			if m := p.moveAlong(map[rune]int{'h': 0, 'm': 1, 'M': 2}[c]); m != "" {
+				return "moveto", m
+			}
+			if m := p.checkPath(&sc.T0, sc.T); m != "" {
+				return "path-after-moveto", m
+			}
+		case 'j', 'J':
+			if m := p.moveTo(sc.Jt); m != "" {
+				return "moveto", m
+			}
+			if c == 'J' {
+				if m := p.checkPath(&sc.T0, sc.T); m != "" {
+					return "path-after-moveto", m
+				}
+			}
 		}
 	}
 	if p.here() == sc.T {
@@ -241,25 +333,52 @@ func runScript(sc *dscript, heur string) (what, msg string) {
 	if m := p.checkPath(&sc.T1, sc.T); m != "" {
 		return "path-after-update", m
 	}
+	post := sc.Post
+	if post == "" {
+		post = "s"
+	}
 	for k := 0; k <= sc.N; k++ {
-		moved, m := p.step(&sc.T1, sc.T)
-		if m != "" {
-			return "step-after-update", m
+		c := post[len(post)-1]
+		if k < len(post) {
+			c = post[k]
 		}
-		if !moved {
-			return "", ""
+		if c == 'm' && p.here() != sc.T {
+			if m := p.moveAlong(1); m != "" {
+				return "moveto-after-update", m
+			}
+		} else {
+			moved, m := p.step(&sc.T1, sc.T)
+			if m != "" {
+				return "step-after-update", m
+			}
+			if !moved {
+				return "", ""
+			}
 		}
 		if m := p.checkPath(&sc.T1, sc.T); m != "" {
 			return "path-after-update", m
 		}
 	}
-	return "step-after-update", "the goal was not reached within n+1 optimal steps"
+	return "step-after-update", "the goal was not reached within n+1 optimal moves"
 }
 
 func replayDStarTables(in *core.Lines, args []string, seed int64, sum *core.Summary) error {
 	heur := argOf(args, "heur", "spec")
 	if ms, err := strconv.Atoi(argOf(args, "limitms", "")); err == nil && ms > 0 {
 		dstarLimit = time.Duration(ms) * time.Millisecond
+	}
+	// moves: "" the documented loop (Step only); A / B / C: scripts with MoveTo (movePatterns). The
+	// domains B and C have signatures of their own.
+	moves := argOf(args, "moves", "")
+	maxWorlds, _ := strconv.Atoi(argOf(args, "worlds", "0"))
+	sigp := "path:DStarLite:"
+	switch moves {
+	case "B":
+		sigp += "moveto-after-step:"
+	case "C":
+		sigp += "moveto-then-path:"
+	case "D":
+		sigp += "moveto-from-goal:"
 	}
 	maxSteps := 3
 	type job struct{ line []byte }
@@ -272,6 +391,7 @@ func replayDStarTables(in *core.Lines, args []string, seed int64, sum *core.Summ
 		go func() {
 			defer wg.Done()
 			cases, nontriv, scripts, bad := 0, 0, 0, 0
+			badPat := map[string]int{}
 			type fl struct {
 				sig, msg string
 				c        any
@@ -315,12 +435,37 @@ func replayDStarTables(in *core.Lines, args []string, seed int64, sum *core.Summ
 					}
 					for s := 1; s <= wd.N; s++ {
 						for t := 1; t <= wd.N; t++ {
-							if s == t || !isGoal(t) {
+							if (s == t) != (moves == "D") || !isGoal(t) {
 								continue
 							}
-							for k := 0; k <= maxSteps; k++ {
-								for ci := range wd.Changes {
-									list = append(list, &dscript{K: "ws", N: wd.N, E: wd.E, H: wd.H, T0: wd.Tab, S: s, T: t, St: k, Ch: wd.Changes[ci].Ch, T1: wd.Changes[ci].Tab})
+							if moves == "" {
+								for k := 0; k <= maxSteps; k++ {
+									for ci := range wd.Changes {
+										list = append(list, &dscript{K: "ws", N: wd.N, E: wd.E, H: wd.H, T0: wd.Tab, S: s, T: t, St: k, Ch: wd.Changes[ci].Ch, T1: wd.Changes[ci].Tab})
+									}
+								}
+								continue
+							}
+							for _, pt := range movePatterns(moves) {
+								// jump targets: every node but the goal for the bare jump, one for longer patterns
+								jts := []int{0}
+								if pt[0] == "j" || pt[0] == "J" {
+									jts = jts[:0]
+									for x := 1; x <= wd.N; x++ {
+										if x != t {
+											jts = append(jts, x)
+										}
+									}
+								} else if strings.ContainsAny(pt[0], "jJ") {
+									jts[0] = (2*s+t)%wd.N + 1
+									if jts[0] == t {
+										jts[0] = t%wd.N + 1
+									}
+								}
+								for _, jt := range jts {
+									for ci := range wd.Changes {
+										list = append(list, &dscript{K: "ws", N: wd.N, E: wd.E, H: wd.H, T0: wd.Tab, S: s, T: t, St: len(pt[0]), Ch: wd.Changes[ci].Ch, T1: wd.Changes[ci].Tab, Mv: pt[0], Post: pt[1], Jt: jt})
+									}
 								}
 							}
 						}
@@ -339,8 +484,15 @@ func replayDStarTables(in *core.Lines, args []string, seed int64, sum *core.Summ
 					}
 					if what, msg := runScript(sc, heur); msg != "" {
 						bad++
+						if moves != "" {
+							badPat[sc.Mv+"/"+sc.Post+":"+what]++
+						}
 						if len(fails) < 6 {
-							fails = append(fails, fl{"path:DStarLite:" + what, fmt.Sprintf("[heur=%s] world e=%v start=%d goal=%d steps=%d change=%v: %s", heur, sc.E, sc.S, sc.T, sc.St, sc.Ch, msg), sc})
+							mv := ""
+							if sc.Mv != "" || sc.Post != "" {
+								mv = fmt.Sprintf(" moves=%q jump-target=%d moves-after-update=%q", sc.Mv, sc.Jt, sc.Post)
+							}
+							fails = append(fails, fl{sigp + what, fmt.Sprintf("[heur=%s] world e=%v start=%d goal=%d steps=%d%s change=%v: %s", heur, sc.E, sc.S, sc.T, sc.St, mv, sc.Ch, msg), sc})
 						}
 					}
 				}
@@ -350,13 +502,16 @@ func replayDStarTables(in *core.Lines, args []string, seed int64, sum *core.Summ
 			sum.Nontrivial += nontriv
 			sum.Count("worlds", cases)
 			sum.Count("scripts-failed", bad)
+			for k, v := range badPat {
+				sum.Count("failed["+k+"]", v)
+			}
 			for _, f := range fails {
 				sum.Fail(f.sig, f.msg, f.c)
 			}
 			mu.Unlock()
 		}()
 	}
-	for {
+	for nl := 0; maxWorlds <= 0 || nl < maxWorlds; nl++ {
 		b, ok := in.Next()
 		if !ok {
 			break
@@ -390,7 +545,8 @@ type mline struct {
 	Goal int        `json:"goal"`
 	E    [][3]int64 `json:"e"`
 	H    [][]int64  `json:"h"`
-	Act  string     `json:"act"`
+	Act  string     `json:"act"` // "step" | "move" | "update"
+	J    int        `json:"j"`   // move: how many edges ahead on Path() the target of MoveTo lies
 	Ch   [][3]int64 `json:"ch"`
 	S    mstate     `json:"s"`
 	T    mstate     `json:"t"`
@@ -412,6 +568,7 @@ func (t *mtab) full(n, goal int) *dtab {
 // its lines, so it can be replayed alone.
 func replayDStarMachine(in *core.Lines, args []string, seed int64, sum *core.Summary) error {
 	heur := argOf(args, "heur", "spec")
+	sigDom := argOf(args, "dom", "") // "moveto-after-step:" for behaviours in which a MoveTo may follow a Step
 	groups := map[int][]mline{}
 	var order []int
 	for {
@@ -450,17 +607,18 @@ func replayDStarMachine(in *core.Lines, args []string, seed int64, sum *core.Sum
 		sem <- struct{}{}
 		go func() {
 			defer func() { <-sem; wg.Done() }()
-			steps, updates, what, msg := runMachine(lines, heur)
+			steps, moves, updates, what, msg := runMachine(lines, heur)
 			mu.Lock()
 			defer mu.Unlock()
 			sum.Cases++
 			if updates > 0 && steps > 0 {
 				sum.Nontrivial++
 			}
-			sum.Count("machine-steps", steps)
+			sum.Count("machine-steps", steps-moves)
+			sum.Count("machine-movetos", moves)
 			sum.Count("machine-updates", updates)
 			if msg != "" {
-				sum.Fail("path:DStarLite:machine-"+what, fmt.Sprintf("[heur=%s] behaviour idx=%d: %s", heur, lines[0].Idx, msg), lines)
+				sum.Fail("path:DStarLite:"+sigDom+"machine-"+what, fmt.Sprintf("[heur=%s] behaviour idx=%d: %s", heur, lines[0].Idx, msg), lines)
 			}
 		}()
 	}
@@ -468,7 +626,7 @@ func replayDStarMachine(in *core.Lines, args []string, seed int64, sum *core.Sum
 	return nil
 }
 
-func runMachine(lines []mline, heur string) (steps, updates int, what, msg string) {
+func runMachine(lines []mline, heur string) (steps, moves, updates int, what, msg string) {
 	var init *mline
 	out := map[string][]*mline{}
 	for i := range lines {
@@ -480,46 +638,55 @@ func runMachine(lines []mline, heur string) (steps, updates int, what, msg strin
 		}
 	}
 	if init == nil {
-		return 0, 0, "input", "no init line"
+		return 0, 0, 0, "input", "no init line"
 	}
 	goal := init.Goal
 	p := newPlanner(init.N, init.E, init.H, init.S.Here, goal, heur)
 	if p.err != "" {
-		return 0, 0, "new", p.err
+		return 0, 0, 0, "new", p.err
 	}
 	tab := init.Tab.full(init.N, goal)
 	cur := init.S
 	if m := p.checkPath(tab, goal); m != "" {
-		return 0, 0, "initial-path", m
+		return 0, 0, 0, "initial-path", m
 	}
 	for guard := 0; guard < 1000; guard++ {
 		ts := out[cur.key()]
 		if len(ts) == 0 {
 			// the specification's behaviour ends here: the robot must be at the goal and Step refused
 			if cur.Here != goal {
-				return steps, updates, "spec-graph", fmt.Sprintf("state %v has no successor in the specification but is not the goal", cur)
+				return steps, moves, updates, "spec-graph", fmt.Sprintf("state %v has no successor in the specification but is not the goal", cur)
 			}
 			if _, m := p.step(tab, goal); m != "" {
-				return steps, updates, "final-step", m
+				return steps, moves, updates, "final-step", m
 			}
-			return steps, updates, "", ""
+			return steps, moves, updates, "", ""
 		}
 		if ts[0].Act == "update" {
 			if m := p.update(ts[0].Ch); m != "" {
-				return steps, updates, "update", m
+				return steps, moves, updates, "update", m
 			}
 			updates++
 			tab = ts[0].Tab.full(init.N, goal)
 			cur = ts[0].T
 			if m := p.checkPath(tab, goal); m != "" {
-				return steps, updates, "path-after-update", fmt.Sprintf("after %d steps and %d updates (last change %v): %s", steps, updates, ts[0].Ch, m)
+				return steps, moves, updates, "path-after-update", fmt.Sprintf("after %d steps and %d updates (last change %v): %s", steps, updates, ts[0].Ch, m)
 			}
 			continue
 		}
-		// Step: the code chooses; the state it reaches must be a successor in the specification
-		_, m := p.step(tab, goal)
-		if m != "" {
-			return steps, updates, "step", fmt.Sprintf("after %d steps and %d updates: %s", steps, updates, m)
+		if ts[0].Act == "move" {
+			// MoveTo: the harness picks the node J edges ahead on the planner's Path(); the state reached
+			// must be a successor in the specification (a node J optimal edges ahead)
+			if m := p.moveAlong(ts[0].J); m != "" {
+				return steps, moves, updates, "moveto", fmt.Sprintf("after %d moves and %d updates: %s", steps, updates, m)
+			}
+			moves++
+		} else {
+			// Step: the code chooses; the state it reaches must be a successor in the specification
+			_, m := p.step(tab, goal)
+			if m != "" {
+				return steps, moves, updates, "step", fmt.Sprintf("after %d moves and %d updates: %s", steps, updates, m)
+			}
 		}
 		steps++
 		var next *mline
@@ -529,12 +696,12 @@ func runMachine(lines []mline, heur string) (steps, updates int, what, msg strin
 			}
 		}
 		if next == nil {
-			return steps, updates, "step", fmt.Sprintf("Step moved to %d which is not a successor of state %v in the specification", p.here(), cur)
+			return steps, moves, updates, ts[0].Act, fmt.Sprintf("%s (j=%d) led to %d which is not a successor of state %v in the specification", ts[0].Act, ts[0].J, p.here(), cur)
 		}
 		cur = next.T
 		if m := p.checkPath(tab, goal); m != "" {
-			return steps, updates, "path-after-step", m
+			return steps, moves, updates, "path-after-" + ts[0].Act, fmt.Sprintf("after %d moves (%d by MoveTo) and %d updates: %s", steps, moves, updates, m)
 		}
 	}
-	return steps, updates, "spec-graph", "behaviour did not end"
+	return steps, moves, updates, "spec-graph", "behaviour did not end"
 }
